@@ -2,19 +2,37 @@ import Mdpax.Bounds
 import Mdpax.GaussSeidel
 import Mdpax.Average
 import Mdpax.Bellman
+import Mdpax.Engine
 open Mdpax
+#print axioms contraction
+#print axioms span_contraction
+#print axioms le_fixed
+#print axioms fixed_le
+#print axioms greedy_bracket
 #print axioms vi_span_bound
 #print axioms vi_maxdiff_bound
-#print axioms pi_bound
+#print axioms eval_bound
 #print axioms eval_bound_threshold
+#print axioms pi_bound
 #print axioms singh_yee
 #print axioms gs_new_value_near
 #print axioms gs_fixed_point
+#print axioms gs_fixed_converse
 #print axioms contraction_to_fixed_bound
+#print axioms periodic_gain_bracket
 #print axioms periodic_gain_within
 #print axioms rvi_gain_within
 #print axioms rvi_monotone_bracket
+#print axioms policy_gain_eq
 #print axioms policy_gain_bracket
 #print axioms bell_discop
+#print axioms bellpol_discop
+#print axioms bellpol_le_bell
+#print axioms greedy_eq
 #print axioms matrix_backup_eq
 #print axioms telescope
+#print axioms ravel2_inj
+#print axioms ravel2_surj
+#print axioms ravel3_inj
+#print axioms ravel3_surj
+#print axioms perm_argsort_inv
